@@ -151,7 +151,7 @@ func emit(task, seq int, tag *log.Tag, tagName string, op EvOp, level log.Level)
 		s.CtxFlds = ctxFields(k)
 	}
 	fields := payloadFields(id, task, seq, op.Size)
-	msg := id + "|" + filler(task, seq, op.Size)
+	msg := "id=" + id + "|" + filler(task, seq, op.Size)
 	gen := func() []log.Field {
 		hooks.mu.Lock()
 		hooks.genCalls[k]++
